@@ -338,6 +338,22 @@ func (eng *Engine) VerifyFunc(f *ssa.Function) (rep *FuncReport) {
 		o := ex.oblige(st, "cover", "requires-satisfiable", nil, TFalse, "requires of "+funcShort(f), "")
 		o.Cover = true
 	}
+	if fc != nil && fc.Pure != nil {
+		// frame condition, decided on the inferred write set (every store instruction reachable from f,
+		// through calls, except stores into objects allocated during the call)
+		var ws []string
+		for n := range eng.cachedWrites(f) {
+			ws = append(ws, n)
+		}
+		sort.Strings(ws)
+		g := TTrue
+		src := "writes nothing"
+		if len(ws) > 0 {
+			g = TFalse
+			src = "writes " + strings.Join(ws, ", ")
+		}
+		ex.oblige(st, "frame", fc.Pure.Label, fc.Pure.Tags, g, src, fmt.Sprintf("%s:%d", filepath.Base(fc.Pure.File), fc.Pure.Line))
+	}
 	outs := ex.execFrom(st, f.Blocks[0], 0, nil)
 	var covers []*Obligation
 	for _, o := range outs {
